@@ -399,6 +399,16 @@ fn main() {
             use skv_verif::engine_sched::{sched_prop, Flavor};
             run_model(vec![(sched_prop("C11", Flavor::C11), 2500, 50000)], tier, replay)
         }
+        "C01E" => {
+            // debug: only the systematic enumeration of C01 (thorough = at most 2 pre-emptions)
+            use skv_verif::engine_sched::{sched_prop, Flavor};
+            let findings = Findings::load();
+            let def = sched_prop("C01", Flavor::C01);
+            let t0 = Instant::now();
+            let mut rep = Report::default();
+            enumerate_into(&mut rep, tier, "C01", Flavor::C01, &findings);
+            finish(def.id, def.level, tier, seed_from_env(), &def.rule, &def.assumptions, &rep, t0.elapsed().as_secs_f64(), &findings)
+        }
         "C01S" => {
             use skv_verif::engine_sched::{sched_prop, Flavor};
             run_model(vec![(sched_prop("C01", Flavor::C01), 2000, 40000)], tier, replay)
